@@ -13,6 +13,7 @@
  *  VP_ROT=<glob>:<call>:<n>[;...]                after the n-th matching fsync one byte in the middle of that file silently changes on the medium
  *  VP_KILL=<k>:<before|after|torn>              SIGKILL self around the k-th state-changing call
  *  VP_SIGINT=<glob>:<call>:<n>                  raise SIGINT before the n-th matching call
+ *  VP_PAUSEAT=<glob>:<call>:<n>:<fifo>          the thread issuing the n-th matching call blocks before it until fifo is written
  *  VP_PAUSE=<k>:<fifo>                          block before state-changing call k until fifo is written
  */
 #define _GNU_SOURCE
@@ -49,6 +50,11 @@ static int vp_kill_mode; /* 0 before 1 after 2 torn */
 static int vp_signo = SIGINT; /* VP_SIGNO: the signal VP_SIGINT delivers (the tool handles INT, TERM, HUP, QUIT alike) */
 static long vp_pause_k = -1;
 static const char* vp_pause_fifo;
+static char vp_pauseat_glob[512];
+static char vp_pauseat_call[32];
+static long vp_pauseat_n = -1;
+static long vp_pauseat_count;
+static const char* vp_pauseat_fifo;
 
 #define MAXRULE 16
 struct rule {
@@ -147,6 +153,27 @@ __attribute__((constructor)) static void vp_init(void)
 			if (strcmp(c + 1, "after") == 0) vp_kill_mode = 1;
 			else if (strcmp(c + 1, "torn") == 0) vp_kill_mode = 2;
 		}
+	}
+	e = getenv("VP_PAUSEAT");
+	if (e) {
+		char* d = strdup(e);
+		char* c1 = strrchr(d, ':');
+		if (c1) {
+			*c1 = 0;
+			char* c2 = strrchr(d, ':');
+			if (c2) {
+				*c2 = 0;
+				char* c3 = strrchr(d, ':');
+				if (c3) {
+					*c3 = 0;
+					snprintf(vp_pauseat_glob, sizeof(vp_pauseat_glob), "%s", d);
+					snprintf(vp_pauseat_call, sizeof(vp_pauseat_call), "%s", c3 + 1);
+					vp_pauseat_n = atol(c2 + 1);
+					vp_pauseat_fifo = strdup(c1 + 1);
+				}
+			}
+		}
+		free(d);
 	}
 	e = getenv("VP_PAUSE");
 	if (e) {
@@ -262,6 +289,18 @@ static void check_rot(const char* call, const char* path)
 static long sc_before(const char* call, const char* path)
 {
 	long k = __atomic_fetch_add(&sc_index, 1, __ATOMIC_SEQ_CST);
+	if (vp_pauseat_n >= 0 && vp_pauseat_fifo && strcmp(vp_pauseat_call, call) == 0 && fnmatch(vp_pauseat_glob, path, 0) == 0) {
+		long c = __atomic_fetch_add(&vp_pauseat_count, 1, __ATOMIC_SEQ_CST);
+		if (c == vp_pauseat_n) {
+			trace("PAUSE", path, call, 0, 0, 0, 0, k);
+			int f = REAL(open)(vp_pauseat_fifo, O_RDONLY);
+			if (f >= 0) {
+				char ch;
+				syscall(SYS_read, f, &ch, 1);
+				REAL(close)(f);
+			}
+		}
+	}
 	if (k == vp_pause_k && vp_pause_fifo) {
 		int f = REAL(open)(vp_pause_fifo, O_RDONLY);
 		if (f >= 0) {
